@@ -345,6 +345,8 @@ Section Conf.
       let _ := (ATTRS, OBJS) in   (* used by codecs not dispatched yet: keeps the signature stable *)
       let n := t_name d in
       if String.eqb n "kmip.RequestBatchItem" then conf_request_item st d tag fs
+      else if String.eqb n "kmip.ResponseBatchItem" then conf_response_item st d tag fs
+      else if String.eqb n "kmip.Attribute" then conf_attribute st d tag fs
       else if String.eqb n "kmip.Credential" then conf_credential st d tag fs
       else if String.eqb n "kmip.KeyBlock" then conf_key_block st d tag fs
       else if String.eqb n "payloads.GetResponsePayload" then conf_typed_object 2 st d tag fs
